@@ -15,19 +15,23 @@ vars == <<pick, rec>>
 ShapeMenu == << <<1>>, <<2>>, <<3>>, <<4>>, <<1, 1, 2>>, <<2, 1, 2>>, <<1, 2, 2>>, <<2, 3, 1>> >>
 Count(s) == IF Len(s) = 1 THEN s[1] ELSE s[1] * s[2] * s[3]
 
-\* boundary grid for probabilities: 0, eps, 1/4, 1/2, 3/4, 1 - eps, 1 (as <<n, d>>)
-ProbGrid == << <<0, 1>>, <<1, 1000000>>, <<1, 4>>, <<1, 2>>, <<3, 4>>, <<999999, 1000000>>, <<1, 1>> >>
+\* boundary grid for probabilities: 0, eps, 1/4, 1/2, 3/4, 1 - eps, 1 and a SUBNORMAL probability 2^-140
+\* (as <<n, d>> or <<n, d, e>> = n/d * 2^e): a finite in-domain target whose reciprocal overflows
+ProbGrid == << <<0, 1>>, <<1, 1000000>>, <<1, 4>>, <<1, 2>>, <<3, 4>>, <<999999, 1000000>>, <<1, 1>>, <<1, 1, -140>> >>
 \* grid for the regression objectives; 2^-26 next to 0 is a pair closer than the machine epsilon that is NOT equal
 \* (the "no slope at a == p" special cases of AE / RMSE must not swallow it)
-RealGrid == << <<-2, 1>>, <<-1, 4>>, <<0, 1>>, <<1, 67108864>>, <<1, 2>>, <<1, 1>>, <<3, 1>> >>
+RealGrid == << <<-2, 1>>, <<-1, 4>>, <<0, 1>>, <<1, 67108864>>, <<1, 2>>, <<1, 1>>, <<3, 1>>, <<-3, 2>> >>
 GridOf(obj) == IF obj \in Probabilistic THEN ProbGrid ELSE RealGrid
+GridLen == 8
 
-\* none / symmetric / one-sided with an infinite bound (Const(+-1, 0) evaluates to +-infinity) / degenerate
-Clamps == << <<>>, <<Const(-1, 2), Const(1, 2)>>, <<Const(-1, 0), Const(1, 4)>>, <<Const(-1, 4), Const(1, 0)>>, <<Zero, Zero>> >>
+\* none / symmetric / one-sided with an infinite bound (Const(+-1, 0) evaluates to +-infinity) / degenerate /
+\* intervals that EXCLUDE zero (a zero component -- prediction equal to the target -- must be limited too)
+Clamps == << <<>>, <<Const(-1, 2), Const(1, 2)>>, <<Const(-1, 0), Const(1, 4)>>, <<Const(-1, 4), Const(1, 0)>>, <<Zero, Zero>>,
+             <<Const(1, 4), Const(2, 1)>>, <<Const(-3, 1), Const(-1, 2)>> >>
 
-\* data of element i for grid rotation (a, b): all 49 (target, prediction) pairs appear for single-element shapes
-TIdx(a, i) == ((a + i - 1) % 7) + 1
-PIdx(a, b, i) == ((a + b + 2 * (i - 1)) % 7) + 1
+\* data of element i for grid rotation (a, b): all 64 (target, prediction) pairs appear for single-element shapes
+TIdx(a, i) == ((a + i - 1) % GridLen) + 1
+PIdx(a, b, i) == ((a + b + 2 * (i - 1)) % GridLen) + 1
 
 Init ==
   /\ rec = <<>>
